@@ -27,6 +27,8 @@ type c11Scope struct {
 	Isolated  bool  `json:"isolated,omitempty"`
 	FailEvent int   `json:"fail_event,omitempty"` // 0 none; else a listener returns an error on this event (index into c11Events, 1-based)
 	Tasks     int   `json:"tasks"`                // tasks added to the scope before the actors start
+	Many      int   `json:"many,omitempty"`       // >0: that many additional listeners on event ManyEv (1-based) of this scope; each must run when the event fires
+	ManyEv    int   `json:"many_ev,omitempty"`
 	Reenter   int   `json:"reenter,omitempty"`    // 0 none; else the listener of this event (1-based) calls Close on its own scope again, from inside the running Close
 }
 
@@ -74,6 +76,9 @@ func c11Gen(r *Rand, tier string) interface{} {
 		}
 		if r.Chance(1, 8) {
 			sc.Reenter = 1 + r.Intn(len(c11Events))
+		}
+		if r.Chance(1, 10) {
+			sc.Many, sc.ManyEv = r.Pick(2, 7, 8, 9, 12, 17, 33), 1+r.Intn(len(c11Events))
 		}
 		in.Scopes = append(in.Scopes, sc)
 	}
@@ -155,6 +160,7 @@ func c11Run(inI interface{}, env *Env) *Failure {
 	var finalDone []bool
 	var doubleClose string
 	var reentered []string
+	manyCalls := map[[2]int]int{}
 	res := env.Sim(SimOpts{MaxSteps: 60000, FairSteps: 30000}, func() {
 		index := map[app.Scope]int{}
 		for i, sc := range in.Scopes {
@@ -198,6 +204,15 @@ func c11Run(inI interface{}, env *Env) *Failure {
 					if sc.FailEvent == e+1 {
 						rec(c11Rec{kind: "err-invoke", scope: i})
 						return &c11ListenerErr{fmt.Sprintf("listener of s%d fails on %s", i, c11EventNames[e])}
+					}
+					return nil
+				})
+			}
+			for k := 0; k < sc.Many; k++ {
+				k := k
+				scopes[i].On(c11Events[sc.ManyEv-1], func(data interface{}) error {
+					if ds, ok := data.(app.Scope); ok && index[ds] == i {
+						manyCalls[[2]int{i, k}]++
 					}
 					return nil
 				})
@@ -296,6 +311,23 @@ func c11Run(inI interface{}, env *Env) *Failure {
 	}
 	if post != nil {
 		return post
+	}
+	// every listener of an event runs when the event fires (once), however many there are
+	for i, sc := range in.Scopes {
+		if sc.Many == 0 || sc.FailEvent == sc.ManyEv {
+			continue // a listener that returns an error ends the round for the listeners after it (by design)
+		}
+		fired := 0
+		for _, rc := range log {
+			if rc.kind == "event" && rc.scope == i && rc.ev == sc.ManyEv-1 {
+				fired++
+			}
+		}
+		for k := 0; k < sc.Many; k++ {
+			if manyCalls[[2]int{i, k}] != fired {
+				return failf("C11/listener-skipped", fmt.Sprintf("listeners=%d", sc.Many+1), "s%d has %d listeners on %s; the event fired %d time(s) for the first one but listener %d ran %d time(s)", i, sc.Many+1, c11EventNames[sc.ManyEv-1], fired, k+2, manyCalls[[2]int{i, k}])
+			}
+		}
 	}
 	for _, r := range reentered {
 		if strings.HasSuffix(r, "ACCEPTED") {
